@@ -288,6 +288,11 @@ func init() {
 			// ranges: every sign combination of (to - from, step) incl. fractional steps and equal bounds
 			// (a step pointing away from the end gives an empty range); step 0 never ends and is left out
 			steps := []string{"", ", 1", ", 2", ", -1", ", -2", ", 3", ", 0.5", ", -0.5", ", 1.5", ", -1.5"}
+			// fractional steps that are not exact in binary: the elements are those of repeated float addition
+			// (0, 0.1, 0.2, 0.30000000000000004): the end is delivered only if the accumulation hits it
+			for _, r := range []string{"range(0, 0.3, 0.1)", "range(0, 1, 0.1)", "range(1, 0, -0.1)", "range(0, 0.6, 0.2)", "range(0.1, 0.5, 0.1)", "range(0, 2, 0.7)"} {
+				emit("range family, inexact fractional step", "for i in "+r+" {\nx.mark(i)\n}\nx.mark(99)")
+			}
 			rangeLoop := func(a, b int, st string) string {
 				return fmt.Sprintf("for i in range(%d, %d%s) {\nx.mark(i)\n}", a, b, st)
 			}
